@@ -195,10 +195,19 @@ def check_property(prop, tier='quick', seed=0, only=None, verbose=False):
                   for r in need for w in r.get('partial_witnesses', [])]
         sitems += [{'contract': r['contract'], 'values': {}, 'tag': 'sample:%d' % i, 'sample_seed': seed * 100003 + i}
                    for r in need for i in range(n_samples)]
+        # one native process per contract (a change that makes calls hang costs call_timeout_s per sample until the first failure)
+        groups = {}
+        for it in sitems:
+            groups.setdefault(it['contract'], []).append(it)
+
+        def _standin(its):
+            return its, native_run(prop, its, timeout=1800, stop_on_fail=True, call_timeout_s=5)
         try:
-            sruns = native_run(prop, sitems, timeout=1200, stop_on_fail=True, call_timeout_s=5)
-            for it, run in zip(sitems, sruns):
-                standin.setdefault(it['contract'], []).append(run)
+            from concurrent.futures import ThreadPoolExecutor
+            with ThreadPoolExecutor(max_workers=min(12, len(groups))) as ex:
+                for its, sruns in ex.map(_standin, list(groups.values())):
+                    for it, run in zip(its, sruns):
+                        standin.setdefault(it['contract'], []).append(run)
         except Exception as e:
             native_err = 'stand-in: ' + str(e)
 
